@@ -6,7 +6,7 @@ RULE = ("every index 0..511 of epoll_op_table, each without and with EV_CHANGE_E
         "registration read back from /proc/self/fdinfo and compared with old U adds \\ dels, epoll_ctl calls counted; "
         "non-trivial = non-impossible entry with at least one pending change; distinct = (index, ET)")
 STEPS = [
-    dict(flavor="asan", harness="h_epolltab", args=[], cases=dict(quick=1024, thorough=1024)),
+    dict(flavor="asan", harness="h_epolltab", args=[], cases=dict(quick=1248, thorough=1248)),
 ]
 
 REG = dict(
@@ -16,6 +16,7 @@ REG = dict(
          "old conditions; the kernel's resulting registration (fdinfo) must equal old U adds \\ dels (ET iff requested), with exactly "
          "one epoll_ctl that the kernel accepted (no reliance on the ENOENT/EEXIST fallbacks). The 296 add+del entries must have "
          "events==0 (no operation). EPOLL_OP_TABLE_INDEX is checked against the documented bit layout for every entry. "
+         "Part 2 asks the same at the real entry points without changelist: epoll_nochangelist_add/_del(base, fd, old, events) for every old x non-empty events x add/del x ET that evmap can produce (224 combinations, 76 producible) must leave old U events resp. old \\ events through one accepted epoll_ctl. "
          "Identical in both tiers; complete over the table, for this kernel and an AF_UNIX stream socket.",
     note="trusts /proc/self/fdinfo as the kernel's view and the 3-line set reference in harness/h_epolltab.c; CALIBRATED: the 7x2 "
          "'delete from an fd with nothing registered' entries (never produced by evmap/changelist) may get ENOENT from their single "
@@ -26,7 +27,7 @@ REG = dict(
 
 def run(tier, seed):
     return generic.run_spec("C06", tier, seed, STEPS, RULE, exhaustive=True,
-                            required=["applied", "applied_et", "impossible_entries", "index_macro_checked", "accepted_first_try",
+                            required=["applied", "entry_point_add", "entry_point_del", "applied_et", "impossible_entries", "index_macro_checked", "accepted_first_try",
                                       "op_add", "op_mod", "op_del", "op_none"],
                             assumptions=["kernel behaviour observed on the running kernel only; target fd is an AF_UNIX stream socket",
                                          "asserts are on, so impossible entries are judged on the table (events==0 => the function issues no epoll_ctl) "
